@@ -1,0 +1,201 @@
+//! Pass-through wrappers over crate-private items, used only by the external verification
+//! harness (feature `verif_hooks`, off by default). Nothing in here changes behaviour.
+
+use alloc::format;
+use alloc::string::String;
+use alloc::vec::Vec;
+
+pub use crate::bit_io::{VerifBitReader as BitReader, VerifBitReaderReversed as BitReaderReversed};
+pub use crate::decoding::decode_buffer::DecodeBuffer;
+pub use crate::decoding::VerifRingBuffer as RingBuffer;
+
+pub use crate::decoding::sequence_execution::verif_do_offset_history as do_offset_history;
+pub use crate::decoding::sequence_section_decoder::{
+    verif_default_distributions as default_distributions, verif_lookup_ll_code as lookup_ll_code,
+    verif_lookup_ml_code as lookup_ml_code,
+};
+pub use crate::encoding::blocks::verif::{
+    compress_literals, encode_literal_length, encode_match_len, encode_offset, encode_seqnum,
+    raw_literals,
+};
+
+/// (num_sequences, modes byte if present, bytes read)
+pub fn parse_sequences_header(source: &[u8]) -> Result<(u32, Option<u8>, u8), String> {
+    let mut header = crate::blocks::sequence_section::SequencesHeader::new();
+    let bytes = header
+        .parse_from_header(source)
+        .map_err(|e| format!("{e}"))?;
+    let modes = header.modes.map(|m| {
+        let code = |m: crate::blocks::sequence_section::ModeType| -> u8 {
+            match m {
+                crate::blocks::sequence_section::ModeType::Predefined => 0,
+                crate::blocks::sequence_section::ModeType::RLE => 1,
+                crate::blocks::sequence_section::ModeType::FSECompressed => 2,
+                crate::blocks::sequence_section::ModeType::Repeat => 3,
+            }
+        };
+        (code(m.ll_mode()) << 6) | (code(m.of_mode()) << 4) | (code(m.ml_mode()) << 2)
+    });
+    Ok((header.num_sequences, modes, bytes))
+}
+
+/// (type 0..=3 = raw/rle/compressed/treeless, regenerated size, compressed size, streams, header bytes)
+#[allow(clippy::type_complexity)]
+pub fn parse_literals_header(
+    source: &[u8],
+) -> Result<(u8, u32, Option<u32>, Option<u8>, u8), String> {
+    use crate::blocks::literals_section::{LiteralsSection, LiteralsSectionType};
+    if source.is_empty() {
+        return Err(String::from("empty source"));
+    }
+    let mut section = LiteralsSection::new();
+    let bytes = section
+        .parse_from_header(source)
+        .map_err(|e| format!("{e}"))?;
+    let ty = match section.ls_type {
+        LiteralsSectionType::Raw => 0,
+        LiteralsSectionType::RLE => 1,
+        LiteralsSectionType::Compressed => 2,
+        LiteralsSectionType::Treeless => 3,
+    };
+    Ok((
+        ty,
+        section.regenerated_size,
+        section.compressed_size,
+        section.num_streams,
+        bytes,
+    ))
+}
+
+/// Huffman decoding state kept between literal sections (for treeless sections).
+pub struct HuffmanState(crate::decoding::scratch::HuffmanScratch);
+
+impl Default for HuffmanState {
+    fn default() -> Self {
+        Self::new()
+    }
+}
+
+impl HuffmanState {
+    pub fn new() -> Self {
+        HuffmanState(crate::decoding::scratch::HuffmanScratch::new())
+    }
+
+    pub fn table(&self) -> &crate::huff0::HuffmanTable {
+        &self.0.table
+    }
+
+    /// Parses the literals section header at the start of `source` and decodes the section
+    /// with the production routine. Returns (literals, total bytes consumed incl. header).
+    pub fn decode_literals_section(&mut self, source: &[u8]) -> Result<(Vec<u8>, usize), String> {
+        use crate::blocks::literals_section::{LiteralsSection, LiteralsSectionType};
+        if source.is_empty() {
+            return Err(String::from("empty source"));
+        }
+        let mut section = LiteralsSection::new();
+        let header_bytes = section
+            .parse_from_header(source)
+            .map_err(|e| format!("{e}"))? as usize;
+        let raw = &source[header_bytes..];
+        let upper_limit = match section.compressed_size {
+            Some(x) => x as usize,
+            None => match section.ls_type {
+                LiteralsSectionType::RLE => 1,
+                LiteralsSectionType::Raw => section.regenerated_size as usize,
+                _ => return Err(String::from("missing compressed size")),
+            },
+        };
+        if raw.len() < upper_limit {
+            return Err(format!(
+                "malformed section header: need {upper_limit} have {}",
+                raw.len()
+            ));
+        }
+        let mut target = Vec::new();
+        let used = crate::decoding::literals_section_decoder::decode_literals(
+            &section,
+            &mut self.0,
+            &raw[..upper_limit],
+            &mut target,
+        )
+        .map_err(|e| format!("{e}"))?;
+        Ok((target, header_bytes + used as usize))
+    }
+}
+
+/// (last_block, type 0..=2 = raw/rle/compressed, decompressed_size, content_size)
+pub fn read_block_header(bytes: [u8; 3]) -> Result<(bool, u8, u32, u32), String> {
+    use crate::blocks::block::BlockType;
+    let mut dec = crate::decoding::block_decoder::new();
+    let (header, _) = dec
+        .read_block_header(&bytes[..])
+        .map_err(|e| format!("{e}"))?;
+    let ty = match header.block_type {
+        BlockType::Raw => 0,
+        BlockType::RLE => 1,
+        BlockType::Compressed => 2,
+        BlockType::Reserved => 3,
+    };
+    Ok((
+        header.last_block,
+        ty,
+        header.decompressed_size,
+        header.content_size,
+    ))
+}
+
+/// What the frame header parser reports for `source`.
+pub struct FrameHeaderInfo {
+    pub descriptor: u8,
+    pub header_size: u8,
+    pub window_size: Result<u64, String>,
+    pub dictionary_id: Option<u32>,
+    pub frame_content_size: u64,
+    pub checksum_flag: bool,
+    pub single_segment: bool,
+}
+
+pub fn read_frame_header(source: &[u8]) -> Result<FrameHeaderInfo, String> {
+    let (header, size) =
+        crate::decoding::frame::read_frame_header(source).map_err(|e| format!("{e}"))?;
+    Ok(FrameHeaderInfo {
+        descriptor: header.descriptor.0,
+        header_size: size,
+        window_size: header.window_size().map_err(|e| format!("{e}")),
+        dictionary_id: header.dictionary_id(),
+        frame_content_size: header.frame_content_size(),
+        checksum_flag: header.descriptor.content_checksum_flag(),
+        single_segment: header.descriptor.single_segment_flag(),
+    })
+}
+
+/// block_type: 0 raw, 1 rle, 2 compressed
+pub fn serialize_block_header(last_block: bool, block_type: u8, block_size: u32) -> Vec<u8> {
+    use crate::blocks::block::BlockType;
+    let mut out = Vec::new();
+    crate::encoding::block_header::BlockHeader {
+        last_block,
+        block_type: match block_type {
+            0 => BlockType::Raw,
+            1 => BlockType::RLE,
+            _ => BlockType::Compressed,
+        },
+        block_size,
+    }
+    .serialize(&mut out);
+    out
+}
+
+/// The frame header exactly as `FrameCompressor::compress` builds it for a matcher window size.
+pub fn serialize_frame_header(window_size: u64, content_checksum: bool) -> Vec<u8> {
+    let mut out = Vec::new();
+    crate::encoding::frame_header::FrameHeader {
+        frame_content_size: None,
+        single_segment: false,
+        content_checksum,
+        dictionary_id: None,
+        window_size: Some(window_size),
+    }
+    .serialize(&mut out);
+    out
+}
